@@ -20,7 +20,7 @@ from harness import net_common, net_driver as nd
 
 def run(ctx):
     ctx.mc("net", "IOStreamContract", "MC_IOStreamClose.cfg", overrides=ctx.pick({}, {"MaxStream": 3, "Ccs": "{0, 1}"}),
-           required_actions=["Read", "Deliver", "Cond", "CloseLocal", "Write", "Grant", "WCond", "ConnOk", "ConnFail"])
+           required_actions=["Read", "Deliver", "Cond", "CloseLocal", "Write", "Grant", "WCond", "ConnOk", "ConnFail"], timeout=ctx.pick(900, 3000))
     L = 4
     variants = ctx.pick(nd.VARIANTS[:1], nd.VARIANTS[:2])
     net_common.s2c_stream(ctx, "GenG_IOStreamClose.cfg",
